@@ -98,3 +98,11 @@ mod test {
         assert_eq!(reader.read(&mut buf).unwrap(), 4);
     }
 }
+
+// Verification hook (guard: cfg(kani), set only by `cargo kani`); harness code lives outside the repository.
+#[cfg(kani)]
+mod verif_h {
+    #[allow(unused_imports)]
+    use super::*;
+    include!(concat!(env!("ZIP_VERIF_HARNESS_DIR"), "/h_crc32.rs"));
+}
